@@ -965,6 +965,74 @@ def show_tree(t):
     return "[" + ", ".join("emit" if n == "E" else "for %s: %s" % (n[0], show_tree(n[1])) for n in t) + "]"
 
 
+def iteration_order(prog, mod, cls, e, depth=0):
+    """(container source, 'sorted' | 'insertion' | 'reversed') of an iteration source, following properties
+    of the same object; None when it is not a walk over an attribute of self"""
+    if depth > 4:
+        return None
+    name = pf.call_name(e) if isinstance(e, ast.Call) else None
+    if name == "sorted" and e.args:
+        r = iteration_order(prog, mod, cls, e.args[0], depth + 1)
+        return (r[0], "sorted") if r else None
+    if name == "reversed" and e.args:
+        r = iteration_order(prog, mod, cls, e.args[0], depth + 1)
+        return (r[0], "reversed:" + r[1]) if r else None
+    if name in ("list", "tuple", "iter", "enumerate") and e.args:
+        return iteration_order(prog, mod, cls, e.args[0], depth + 1)
+    if isinstance(e, ast.Call) and isinstance(e.func, ast.Attribute) and e.func.attr in ("keys", "items", "values") \
+            and not e.args:
+        return iteration_order(prog, mod, cls, e.func.value, depth + 1)
+    if pf.is_self_attr(e):
+        r = prog.find_method(mod, cls, e.attr)
+        if r is not None and any(pf.src(d) == "property" for d in r[2].decorator_list):
+            rets = [n for n in pf.walk_no_nested(r[2]) if isinstance(n, ast.Return) and n.value is not None]
+            if len(rets) == 1:
+                return iteration_order(prog, mod, cls, rets[0].value, depth + 1)
+            return None
+        return ("self." + e.attr, "insertion")
+    return None
+
+
+def rule_outer_order(chk, prog):
+    """per-feature methods of one class whose emitting loops walk the same container walk it in the same order"""
+    mod = prog.module(ST)
+    for m, cls in prog.subclasses("BaseSettings"):
+        if m.rel != ST:
+            continue
+        seen = {}  # container -> {method: order}
+        for nm in PER_FEATURE:
+            fn = pf.methods(cls).get(nm)
+            if fn is None:
+                continue
+            for n in pf.walk_no_nested(fn):
+                if not isinstance(n, ast.For) or _enclosing_fors(n, fn):
+                    continue  # outermost loops only
+                emits = any(isinstance(c, ast.Call) and isinstance(c.func, ast.Attribute) and c.func.attr in ("append", "extend")
+                            for c in ast.walk(n))
+                if not emits:
+                    continue
+                r = iteration_order(prog, mod, cls, n.iter)
+                if r is not None:
+                    seen.setdefault(r[0], {}).setdefault(nm, set()).add(r[1])
+        for cont, per in seen.items():
+            if len(per) < 2:
+                continue
+            ref_nm = "get_feat_usps" if "get_feat_usps" in per else sorted(per)[0]
+            for nm in sorted(per):
+                if nm == ref_nm:
+                    continue
+                inst = "%s: %s walks %s %s, %s %s" % (cls.name, nm, cont, sorted(per[nm]), ref_nm, sorted(per[ref_nm]))
+                if per[nm] == per[ref_nm]:
+                    chk.ok("emit-order", inst)
+                else:
+                    chk.violation("emit-order", ST, "%s.%s" % (cls.name, nm), "order of %s" % cont, pf.methods(cls)[nm].lineno,
+                                  "%s.%s emits its per-feature entries while walking %s in %s order, but %s walks it in "
+                                  "%s order: unless the container happens to be filled in sorted order, entry k of one "
+                                  "list does not describe feature k of the other" % (
+                                      cls.name, nm, cont, "/".join(sorted(per[nm])), ref_nm, "/".join(sorted(per[ref_nm]))),
+                                  instance=inst)
+
+
 def rule_emit_order(chk, prog):
     mod = prog.module(ST)
     names = ("ueg_vector", "get_feat_usps", "get_reasonable_normalizer")
@@ -1650,6 +1718,7 @@ def _analyse_own(chk):
     chk.guard(rule_compose, prog)
     chk.guard(rule_rho_forward, prog)
     chk.guard(rule_emit_order, prog)
+    chk.guard(rule_outer_order, prog)
     chk.rule("emit-index", "a flat per-feature list is indexed by a counter that is not reset inside an enclosing "
                            "emission loop and advances with every appended element")
     chk.rule("rho-mult-theta", "the rho_mult prefactor of every NLDF ueg_vector depends on theta_params, never on "
@@ -1796,6 +1865,10 @@ def mutants(tree):
           "        inh = 1.0 if self.slmode in [\"nst\", \"npa\"] else 0.0\n",
           "        x0 = np.zeros((1, max(self.nfeat, 3), 1))\n        x0[0, 0] = rho\n        if self.slmode in [\"nst\", \"npa\"]:\n            x0[0, 2] = CFC * rho ** (5.0 / 3)\n        rho_term, inh_term = self._get_rho_and_inh(x0)\n        inh = inh_term.item()\n",
           expect="norm-ueg"),
+        M("SDMXFull.ueg_vector walks the settings dict in insertion order instead of the sorted ratios", ST,
+          "        i = 0\n        for ratio in self.ratios:\n            for n, rdr in self.iterate_l0_terms(ratio):\n                try:\n                    uegvec.append",
+          "        i = 0\n        for ratio in self._settings.keys():\n            for n, rdr in self.iterate_l0_terms(ratio):\n                try:\n                    uegvec.append",
+          expect="emit-order"),
         M("SDMXFull usps interleaved like the normalisers (ueg_vector left alone)", ST,
           "                usps.append(3 + n)\n        for ratio in self.ratios:\n            for n, rdr in self.iterate_l1_terms(ratio):\n                usps.append(3 + n)",
           "                usps.append(3 + n)\n            for n, rdr in self.iterate_l1_terms(ratio):\n                usps.append(3 + n)",
